@@ -1519,6 +1519,19 @@ NP["numpy.divmod"] = lambda ex, st, a, k: (L.binop("floordiv", a[0], a[1]), L.bi
 NP["numpy.floor_divide"] = lambda ex, st, a, k: L.binop("floordiv", a[0], a[1])
 NP["numpy.mod"] = lambda ex, st, a, k: L.binop("mod", a[0], a[1])
 NP["numpy.remainder"] = NP["numpy.mod"]
+NP["numpy.shape"] = lambda ex, st, a, k: tuple(L.as_arr(a[0]).shape)
+NP["numpy.ndim"] = lambda ex, st, a, k: L.as_arr(a[0]).ndim
+NP["numpy.size"] = lambda ex, st, a, k: (L.as_arr(a[0]).size if len(a) == 1 and "axis" not in k else L.as_arr(a[0]).shape[k.get("axis", a[1] if len(a) > 1 else 0)])
+NP["numpy.broadcast_to"] = lambda ex, st, a, k: SArr(_np.broadcast_to(L.as_arr(a[0]).a, tuple(a[1]) if isinstance(a[1], (tuple, list)) else (a[1],)).copy(), L.as_arr(a[0]).kind)
+import math as _math
+for _mn in ("isfinite", "isnan", "isinf"):
+    NP["math." + _mn] = NP["numpy." + _mn]
+NP["math.sqrt"] = lambda ex, st, a, k: L.sqrt_scalar(a[0])
+NP["math.log"] = lambda ex, st, a, k: L.log_scalar(a[0])
+NP["math.exp"] = lambda ex, st, a, k: L.exp_scalar(a[0])
+NP["math.ceil"] = lambda ex, st, a, k: L.ceil_scalar(a[0])
+NP["math.floor"] = lambda ex, st, a, k: V.neg(L.ceil_scalar(V.neg(a[0])))
+NP["math.fabs"] = lambda ex, st, a, k: V.sabs(a[0])
 NP["numpy.putmask"] = np_putmask
 NP["torch.diag_embed"] = t_diag_embed
 NP["numpy.asanyarray"] = np_asarray
